@@ -595,6 +595,12 @@ def b_sorted(I, a, k):
         for rnd in range(n):
             for i in range(rnd % 2, n - 1, 2):
                 c = I.truth_term(Mo.compare(I, ast.LtE(), v[i], v[i + 1]))
+                if not isinstance(c, bool):
+                    # an order the path condition already fixes (e.g. an input assumed ascending) needs no min / max term
+                    if not I.st.feasible(z3.Not(c)):
+                        c = True
+                    elif not I.st.feasible(c):
+                        c = False
                 if isinstance(c, bool):
                     lo, hi = (v[i], v[i + 1]) if c else (v[i + 1], v[i])
                 else:
